@@ -426,6 +426,47 @@ def w_observe(args):
     return bad, mism, len(items)
 
 
+PUMP_COUNTS = (70, 130, 300)
+
+
+def pumped_histories():
+    hs = []
+    first = {}
+    for op in _FOPS:
+        key = (op[1], op[4], op[2] == 0)
+        if op[3] == 1 and key not in first:
+            first[key] = op
+    last = {}
+    for op in _FOPS:
+        if op[3] == 1:
+            last[(op[1], op[4])] = op
+    ops = list(first.values()) + list(last.values())
+    ops += [('run', j) for j in range(len(PROBES))]
+    seen = set()
+    for op in ops:
+        if op in seen:
+            continue
+        seen.add(op)
+        for n in PUMP_COUNTS:
+            hs.append((op,) * n)
+    return hs
+
+
+def w_pumped(hists):
+    bad = []
+    n = 0
+    for hist in hists:
+        stack = build(hist)
+        n += len(hist)
+        if stack:
+            continue
+        o = observe()
+        if o != _BASE:
+            diffs = [i for i, (a, b) in enumerate(zip(o, _BASE)) if a != b]
+            bad.append((hist, diffs[:4], [o[i] for i in diffs[:2]], [_BASE[i] for i in diffs[:2]]))
+    return bad, n
+
+
 def explore(tier, seed):
     global _BASE, _FOPS, _WIDE_K, _DEFAULT_LISTS
     b = BOUNDS[tier]
@@ -494,6 +535,19 @@ def explore(tier, seed):
             frontier = [h for h, k, sd in fresh_states]
             agg.extra['states_at_history_length_%d' % (level + 1)] = len(fresh_states)
     agg.states = len(seen)
+    # pumped histories: one operation repeated many times (a counter or a cache that leaks a little per operation shows only once a
+    # threshold is crossed - far beyond the history length the search can reach); one representative per fault kind at the first
+    # and the last list position for every fault probe, and every probe run under Html and bare
+    pumped = pumped_histories()
+    with ctx.Pool(nproc) as pool:
+        nsh = max(1, min(len(pumped), nproc * 2))
+        for bad, n in pool.imap_unordered(w_pumped, [pumped[i::nsh] for i in range(nsh)]):
+            agg.transitions += n
+            for hist, diffs, got, want in bad:
+                sig = 'history-changes-result:' + labels[diffs[0]].split(' on ')[0].split(' under ')[-1]
+                agg.fail(dict(history=[list(hist[0])], repeat=len(hist), pumped=True), sig, detail='after the operation was repeated %d times; differs: %s' % (len(hist), '; '.join(labels[i] for i in diffs)),
+                         expected=want, observed=got)
+    agg.extra['pumped_histories'] = len(pumped)
     reuse = instance_reuse()
     agg.extra['instance_reuse_pairs_judged'] = len(RENDERERS) * 9 * 8
     for rname, info in reuse.items():
@@ -554,7 +608,7 @@ def replay(case):
         return None
     pristine.restore()
     base = observe()
-    hist = [tuple(op) for op in case['history']]
+    hist = [tuple(op) for op in case['history']] * int(case.get('repeat', 1))
     stack = build(hist)
     if stack:
         return None
